@@ -482,13 +482,11 @@ func checkDate(cs *Case, o *obs) []Problem {
 		key = "date:calendar-day:instant-between-day-end-and-start+24h:" + dayClass(dayLen)
 	case noMidnight:
 		// the day starts after a clock gap at local midnight; the literal class tells which
-		// conversion meets the missing midnight
+		// conversion meets the missing midnight (date-only: envs.DateTimeFromString and then the day
+		// range; with a time: only the day range)
 		lit := "date+time"
-		switch {
-		case cs.QKind == "iso-date" || (cs.Env.DF == "YYYY-MM-DD" && (cs.QKind == "env-format" || cs.QKind == "env-format+time")):
-			lit = "iso-date-prefix"
-		case cs.QKind == "env-format":
-			lit = "env-date-only"
+		if cs.QKind == "env-format" || cs.QKind == "iso-date" {
+			lit = "date-only"
 		}
 		key = "date:calendar-day:day-without-local-midnight:literal=" + lit
 		if !asPrev && !t.Before(start) {
